@@ -653,12 +653,17 @@ def m9_aggregates_after_a_late_parent(S):
 
 
 def m10_aggregates_after_removing_a_subtree(S):
-    """One `PoolMap::remove_entry_and_descendants(P)` step (conflict resolution, eviction and RBF all remove a transaction together with its descendants) from the valid pool
-    state G -> P -> C, over a three-entry model of the entry table with the real remove_entry / update_*_index_key / sub_*_weight code: P and C leave the table and the
-    surviving ancestor G reports aggregates equal to a recomputation from what is left (itself only)."""
+    """One `PoolMap::remove_entry_and_descendants(root)` step (conflict resolution, eviction and RBF all remove a transaction together with its descendants) from a valid pool
+    state, over a model of the entry table with the real remove_entry / update_*_index_key / sub_*_weight code, for two dependency graphs: the chain G -> P -> C (remove P) and
+    the DIAMOND A -> B -> D <- C (remove B: D has a second, surviving parent C that is not an ancestor of B).  The removed transaction and its descendants leave the table and
+    every SURVIVING entry reports aggregates equal to a recomputation from what is left."""
+    _remove_subtree(S, "C11.m10", "", ("G", "P", "C"), {"G": [], "P": ["G"], "C": ["P", "G"]}, {"G": ["P", "C"], "P": ["C"], "C": []}, "P")
+    _remove_subtree(S, "C11.m10", "diamond_", ("A", "B", "C", "D"), {"A": [], "B": ["A"], "C": [], "D": ["B", "A", "C"]}, {"A": ["B", "D"], "B": ["D"], "C": ["D"], "D": []}, "B")
+
+
+def _remove_subtree(S, ob, tag, nodes, anc0, desc0, root):
     from mir2smt.exec import ListV
     from mir2smt.builtins import _wr
-    ob = "C11.m10"
     f = [x for x in S.prog.funcs if x.kind == "fn" and x.short == "remove_entry_and_descendants" and "component/pool_map.rs" in x.name and "{closure" not in x.name]
     if len(f) != 1:
         raise Inconclusive(f"remove_entry_and_descendants: {len(f)} candidates")
@@ -668,16 +673,16 @@ def m10_aggregates_after_removing_a_subtree(S):
     pe = struct_fields("tx-pool/src/component/pool_map.rs", "PoolEntry")
     order = struct_fields(ENTRY_RS, "TxEntry")
     ents, terms = {}, {}
-    for nm_ in ("G", "P", "C"):
-        v, t, _ = entry(ctx, nm_)
+    for nm_ in nodes:
+        v, t, _ = entry(ctx, tag + nm_)
         ents[nm_] = AggV(tuple(v if fld == "inner" else OpaqueV(f"{nm_}.{fld}", "?") for fld in pe), "PoolEntry")
         terms[nm_] = t
     small = 1 << 32
     pre = []
     own = lambda n, k: terms[n][k]
-    for nm_ in ("G", "P", "C"):
+    for nm_ in nodes:
         pre += [T.le(own(nm_, "size"), small), T.le(own(nm_, "cycles"), small), T.le(own(nm_, "fee"), small)]
-    for n, anc, desc in (("G", ["G"], ["G", "P", "C"]), ("P", ["P", "G"], ["P", "C"]), ("C", ["C", "P", "G"], ["C"])):
+    for n, anc, desc in [(n_, [n_] + anc0[n_], [n_] + desc0[n_]) for n_ in nodes]:
         for kind, members in (("ancestors", anc), ("descendants", desc)):
             pre.append(T.eq(terms[n][f"{kind}_count"], len(members)))
             for k in ("size", "cycles", "fee"):
@@ -685,9 +690,7 @@ def m10_aggregates_after_removing_a_subtree(S):
                 for m_ in members:
                     tot = T.add(tot, own(m_, k))
                 pre.append(T.eq(terms[n][f"{kind}_{k}"], tot))
-    ids = {"idG": "G", "idP": "P", "idC": "C"}
-    anc0 = {"G": [], "P": ["G"], "C": ["P", "G"]}
-    desc0 = {"G": ["P", "C"], "P": ["C"], "C": []}
+    ids = {"id" + n_: n_ for n_ in nodes}
 
     def nmv(ex, v):
         v = deref(ex, v)
@@ -755,7 +758,7 @@ def m10_aggregates_after_removing_a_subtree(S):
         ex.log.append(("unlink", c, [which(ex, a[1])], list(ex.pc)))
         return UNIT
     ctx.env = list(E.LOGGING_OFF) + [
-        (E.rx(r"TxEntry::proposal_short_id$"), lambda ex, c, a, d: idv(re.sub(r"\..*$", "", nmv(ex, deref(ex, a[0]).fields[order.index("rtx")])))),
+        (E.rx(r"TxEntry::proposal_short_id$"), lambda ex, c, a, d: idv(re.sub(r"\..*$", "", nmv(ex, deref(ex, a[0]).fields[order.index("rtx")]))[len(tag):])),
         (E.rx(r"PoolMap::calc_descendants$|TxLinksMap::calc_descendants$"), lambda ex, c, a, d: ListV(tuple(idv(m_) for m_ in related(ex, which(ex, a[1]), desc0)), "set")),
         (E.rx(r"PoolMap::calc_ancestors$|TxLinksMap::calc_ancestors$"), lambda ex, c, a, d: ListV(tuple(idv(m_) for m_ in related(ex, which(ex, a[1]), anc0)), "set")),
         (E.rx(r"<Vec<[\w:]*ProposalShortId> as Extend<.*>>::extend"), vec_extend),
@@ -773,15 +776,17 @@ def m10_aggregates_after_removing_a_subtree(S):
         (E.rx(r"TxEntry::as_evict_key$|TxEntry::as_score_key$|TxEntry::transaction$|TransactionView::hash$"), E.opaque_call()),
         (E.rx(r"get_transaction_weight$"), lambda ex, c, a, d: ex.ctx.fresh_of_type("w", d)),
     ] + list(E.LIST_ADAPTORS)
-    ps = S.run(ctx, f[0], [ctx.ref_to(OpaqueV("pm", "PoolMap")), ctx.ref_to(idv("P"))])
-    S.prove(ctx, ob, "step_no_panic", pre, T.not_(cond_of(panics(ps))))
+    ps = S.run(ctx, f[0], [ctx.ref_to(OpaqueV("pm", "PoolMap")), ctx.ref_to(idv(root))])
+    S.prove(ctx, ob, tag + "step_no_panic", pre, T.not_(cond_of(panics(ps))))
+    removed_want = {root} | set(desc0[root])
+    survivors = [n_ for n_ in nodes if n_ not in removed_want]
     rs = returns(ps)
     if not rs:
         raise Inconclusive("remove subtree step: no returning path")
     bad_removed, bad_agg = [], []
     for p in rs:
         lg = p.log
-        if {e[2][0] for e in lg if e[0] == "removed"} != {"P", "C"}:
+        if {e[2][0] for e in lg if e[0] == "removed"} != removed_want:
             bad_removed.append(p.cond())
 
         def final(n, fld, lg=lg):
@@ -790,15 +795,26 @@ def m10_aggregates_after_removing_a_subtree(S):
                 if e[0] == "entry_set" and e[2][0] == n:
                     val = e[2][1]
             return as_int(val.fields[pe.index("inner")].fields[order.index(fld)])
-        ok = T.and_(T.eq(final("G", "descendants_count"), 1), T.eq(final("G", "descendants_size"), own("G", "size")), T.eq(final("G", "descendants_cycles"), own("G", "cycles")),
-                    T.eq(final("G", "ancestors_count"), 1))
+        oks = []
+        for x_ in survivors:
+            dl = [x_] + [m_ for m_ in desc0[x_] if m_ not in removed_want]
+            al = [x_] + [m_ for m_ in anc0[x_] if m_ not in removed_want]
+            oks += [T.eq(final(x_, "descendants_count"), len(dl)), T.eq(final(x_, "ancestors_count"), len(al))]
+            for k_ in ("size", "cycles", "fee"):
+                td, ta = 0, 0
+                for m_ in dl:
+                    td = T.add(td, own(m_, k_))
+                for m_ in al:
+                    ta = T.add(ta, own(m_, k_))
+                oks += [T.eq(final(x_, f"descendants_{k_}"), td), T.eq(final(x_, f"ancestors_{k_}"), ta)]
+        ok = T.and_(*oks)
         bad_agg.append(T.and_(p.cond(), T.not_(ok)))
         if os.environ.get("VERIF_DEBUG"):
             print("DEBUG m10 path", [(e[0], e[2][0]) for e in lg if e[0] in ("entry_set", "removed")], [str(c)[:160] for c in p.pc])
-    S.prove(ctx, ob, "the_transaction_and_its_descendant_leave_the_table", pre, T.not_(T.or_(*bad_removed)) if bad_removed else True)
-    S.prove(ctx, ob, "surviving_ancestor_aggregates_equal_recomputation", pre, T.not_(T.or_(*bad_agg)))
-    S.prove(ctx, ob, "every_valid_state_returns", pre, T.or_(*[p.cond() for p in rs]))
-    S.witness(ctx, ob, "reach", pre, T.gt(own("C", "size"), 1))
+    S.prove(ctx, ob, tag + "the_transaction_and_its_descendant_leave_the_table", pre, T.not_(T.or_(*bad_removed)) if bad_removed else True)
+    S.prove(ctx, ob, tag + "surviving_ancestor_aggregates_equal_recomputation", pre, T.not_(T.or_(*bad_agg)))
+    S.prove(ctx, ob, tag + "every_valid_state_returns", pre, T.or_(*[p.cond() for p in rs]))
+    S.witness(ctx, ob, tag + "reach", pre, T.gt(own(nodes[-1], "size"), 1))
 
 
 def m11_detached_proposal_readds_parents_first(S):
